@@ -145,7 +145,8 @@ def sc_faults(rng, n, t, k):
         steps += [{"op": "advance", "node": -1, "to": now}, {"op": "deliverall", "order": "random"}]
         for c in range(2, 10, 2):
             steps += [{"op": "advance", "node": -1, "to": now + c}, {"op": "deliverall", "order": "random"}]
-    steps.append({"op": "quiesce", "label": "live-healed"})
+        if r >= 3:
+            steps.append({"op": "quiesce", "label": "live-healed-%d" % r})
     return {"name": "faults-%d-%d-%d" % (n, t, k), "n": n, "t": t, "backend": rng.choice(["memdb", "trimmed", "bolt"]), "steps": steps}
 
 
@@ -170,8 +171,24 @@ def sc_long_partition(rng, n, t, k, mode):
         steps += [{"op": "advance", "node": -1, "to": now}, {"op": "deliverall", "order": "random"}]
         for c in range(2, 10, 2):
             steps += [{"op": "advance", "node": -1, "to": now + c}, {"op": "deliverall", "order": "random"}]
-    steps.append({"op": "quiesce", "label": "live-healed"})
+        if r >= 3:
+            steps.append({"op": "quiesce", "label": "live-healed-%d" % r})
     return {"name": "longcut-%s-%d-%d-%d" % (mode or "drop", n, t, k), "n": n, "t": t, "steps": steps}
+
+
+def sc_allbehind(rng, n, t, k):
+    """every node is equally behind (the whole network was stalled: all clocks jump several periods at once), so
+    nobody can be synced from: the nodes must close the gap themselves in catch-up mode, one round per catch-up
+    period."""
+    steps = [{"op": "startall"}]
+    steps += _round_steps(0, "random", "r1", live=True) + _round_steps(10, "random", "r2", live=True)
+    gap = rng.randint(3, 5)
+    now = 10 + 10 * gap
+    steps += [{"op": "advance", "node": -1, "to": now}, {"op": "deliverall", "order": "random"}]
+    for c in range(2, 2 * (gap + 3) + 2, 2):     # gap catch-up periods plus slack
+        steps += [{"op": "advance", "node": -1, "to": now + c}, {"op": "deliverall", "order": "random"}]
+    steps.append({"op": "quiesce", "label": "live-catchup-after-stall"})
+    return {"name": "allbehind-%d-%d-%d" % (n, t, k), "n": n, "t": t, "steps": steps}
 
 
 def sc_clocks(rng, n, t, k):
@@ -370,6 +387,9 @@ def scenarios_for(ctx, prop):
             out.append(sc_faults(rng, n, t, k))
         out.append(sc_reshare(rng, rng.choice(["add1", "replace1", "tup"]), 0))
     if prop == "C05":
+        for k in range(2 if q else 10):
+            n, t = rng.choice([(3, 2), (4, 3), (3, 3)])
+            out.append(sc_allbehind(rng, n, t, k))
         for k in range(1 if q else 6):
             n, t = rng.choice([(3, 2), (4, 3), (5, 3)])
             out.append(sc_long_partition(rng, n, t, k, ""))
